@@ -126,6 +126,35 @@ static void e2e_box() {
   VF_END();
 }
 extern "C" void h_e2e_box() { e2e_box<false>(); }
+
+// the same with an UNBOUNDED query box: MinGap pads face boxes by an infinite
+// search length, half-space and whole-space queries are legal inputs; only an
+// EMPTY box (min = +infinity, the default Box) may be skipped by the traversal
+static double InfOrFinite() {
+  double d = vf_nondet_f64();
+  vf_assume(d == d);  // any value but NaN, +-infinity included
+  return d;
+}
+extern "C" void h_e2e_box_inf() {
+  Vec<Box> leafBB(VF_N);
+  Vec<uint32_t> morton(VF_N);
+  for (int i = 0; i < VF_N; i++) {
+    leafBB[i] = SymBox();
+    morton[i] = vf_nondet_u32();
+    if (i) vf_assume(morton[i - 1] <= morton[i]);
+  }
+  Collider c(leafBB, morton);
+  Vec<Box> queries(1);
+  queries[0].min = vec3(InfOrFinite(), InfOrFinite(), InfOrFinite());
+  queries[0].max = vec3(InfOrFinite(), InfOrFinite(), InfOrFinite());
+  int count[VF_N];
+  for (int i = 0; i < VF_N; i++) count[i] = 0;
+  Count f{count};
+  auto rec = MakeSimpleRecorder(f);
+  c.Collisions<false, Box>(rec, queries.cview(), false);
+  for (int i = 0; i < VF_N; i++) VF_ASSERT(count[i] == (Overlap(leafBB[i], queries[0]) ? 1 : 0));
+  VF_END();
+}
 extern "C" void h_e2e_self() { e2e_box<true>(); }
 
 // refit: UpdateBoxes with entirely new leaf boxes on an existing tree, then query
